@@ -35,19 +35,20 @@ const (
 type pgErr struct{ msg string }
 
 type pgTr struct {
-	info    *types.Info
-	mode    pgMode
-	fname   string
-	inLock  bool
-	vars    map[string]string // Go local / parameter -> Lean term
-	entry   string            // name of the local icmpEntry of this call ("" if none)
-	ignored *[]string
-	callees map[string]bool
-	assume  map[string]bool
-	progFns map[string]bool // names of prog-shaped targets
-	sendFns map[string]bool // send-shaped targets already translated
-	sls     map[string]bool // locals that are slices of the pooled array (Ether, IP4)
-	buf     string          // the local holding the pooled array
+	info     *types.Info
+	mode     pgMode
+	fname    string
+	inLock   bool
+	vars     map[string]string // Go local / parameter -> Lean term
+	entry    string            // name of the local icmpEntry of this call ("" if none)
+	ignored  *[]string
+	callees  map[string]bool
+	assume   map[string]bool
+	progFns  map[string]bool // names of prog-shaped targets
+	sendFns  map[string]bool // send-shaped targets already translated
+	progDone map[string]bool // prog-shaped targets already translated
+	sls      map[string]bool // locals that are slices of the pooled array (Ether, IP4)
+	buf      string          // the local holding the pooled array
 }
 
 func (x *pgTr) fail(n ast.Node, format string, a ...any) {
@@ -327,6 +328,9 @@ func (x *pgTr) ret(r *ast.ReturnStmt, ind string) string {
 		}
 		if c, ok := r.Results[0].(*ast.CallExpr); ok {
 			if s, ok := c.Fun.(*ast.SelectorExpr); ok && nodeText(s.X) == "h" && x.progFns[s.Sel.Name] {
+				if !x.progDone[s.Sel.Name] {
+					x.fail(r, "callee %s was not translated", s.Sel.Name)
+				}
 				var args []string
 				for _, a := range c.Args {
 					t, _ := x.expr(a)
@@ -346,7 +350,10 @@ func (x *pgTr) ret(r *ast.ReturnStmt, ind string) string {
 		}
 		if c, ok := r.Results[0].(*ast.CallExpr); ok {
 			fn := nodeText(c.Fun)
-			if fn == "h.icmp4SendPacket" && x.sendFns["icmp4SendPacket"] {
+			if fn == "h.icmp4SendPacket" && !x.sendFns["icmp4SendPacket"] {
+				x.fail(r, "callee icmp4SendPacket was not translated")
+			}
+			if fn == "h.icmp4SendPacket" {
 				var args []string
 				for _, a := range c.Args {
 					t, _ := x.expr(a)
@@ -354,7 +361,7 @@ func (x *pgTr) ret(r *ast.ReturnStmt, ind string) string {
 				}
 				return ind + "Session_icmp4SendPacket e sent " + strings.Join(args, " ") + "\n"
 			}
-			if fn == "h.icmp4SendPacket" || fn == "h.icmp6SendPacket" {
+			if fn == "h.icmp6SendPacket" {
 				var args []string
 				for _, a := range c.Args {
 					t, _ := x.expr(a)
@@ -695,6 +702,7 @@ func pingFacts(root *packages.Package, b *strings.Builder) {
 	callees, assume := map[string]bool{}, map[string]bool{}
 	progFns := map[string]bool{}
 	sendFns := map[string]bool{}
+	progDone := map[string]bool{}
 	for _, t := range pingTargets {
 		if t.mode == pgProg {
 			progFns[t.name] = true
@@ -711,7 +719,7 @@ func pingFacts(root *packages.Package, b *strings.Builder) {
 			continue
 		}
 		var ign []string
-		x := &pgTr{info: root.TypesInfo, mode: t.mode, fname: lean, vars: map[string]string{}, ignored: &ign, callees: callees, assume: assume, progFns: progFns, sendFns: sendFns, sls: map[string]bool{}}
+		x := &pgTr{info: root.TypesInfo, mode: t.mode, fname: lean, vars: map[string]string{}, ignored: &ign, callees: callees, assume: assume, progFns: progFns, sendFns: sendFns, progDone: progDone, sls: map[string]bool{}}
 		body, sig, err := x.translate(fd)
 		if err != "" {
 			untr = append(untr, lean+": "+err)
@@ -720,6 +728,9 @@ func pingFacts(root *packages.Package, b *strings.Builder) {
 		tr = append(tr, lean)
 		if t.mode == pgSend {
 			sendFns[t.name] = true
+		}
+		if t.mode == pgProg {
+			progDone[t.name] = true
 		}
 		ignored = append(ignored, ign...)
 		pos := fset.Position(fd.Pos())
